@@ -13,6 +13,15 @@ package Electiontrigger
 //@   ensures [value] result == Tspec(t.minTimeout, view)
 //@   ensures [positive] result > 0
 
+// the general-base path (TIMEOUT_EXP_BASE is an exported variable a consumer may change): never zero or negative, for
+// every view and every base >= 1 (A-POW: the power is then at least 1 or +Inf)
+//@ func (*TimerBasedElectionTrigger).calcTimeoutForBase
+//@   props C19
+//@   mode bv
+//@   pure
+//@   requires t.minTimeout > 0 && base >= 1.0
+//@   ensures [positive-for-every-base] result > 0
+
 // ---- arming / stopping the timer (O19.4, O19.5, O16.4) ----
 // ghost (A-STD / A-CHAN): timerDelay / timerFn (what time.AfterFunc was given), timerStopped (Timer.Stop was called),
 // lastTimerStopResult, closed (closed channels), nsent (number of channel sends)
